@@ -382,6 +382,13 @@ def expected_values(case, bi, x=PROBE):
 
 
 def run_ort_noopt(m, feeds):
+    """in a forked child (lib_isolate): a native crash raises Aborted"""
+    from harness import lib_isolate as ISO
+
+    return ISO.call(_run_ort_noopt_raw, m, feeds)
+
+
+def _run_ort_noopt_raw(m, feeds):
     import onnxruntime as ort
 
     so = ort.SessionOptions()
@@ -398,10 +405,15 @@ def judge_built(m, want, fresh=None):
     from harness import lib_c02c14 as L
 
     bad = list(L.judge_model(m))
-    if any(k in ("full-checker", "strict-inference", "ort-load") for k, _ in bad):
+    if any(k in ("full-checker", "strict-inference", "ort-load", "checker-aborted", "runtime-aborted") for k, _ in bad):
         return bad
+    from harness import lib_isolate as ISO
+
     try:
         got = run_ort_noopt(m, {"x": PROBE})
+    except ISO.Aborted as e:
+        bad.append(("runtime-aborted", "ORT_DISABLE_ALL: " + str(e)))
+        return bad
     except Exception as e:  # noqa: BLE001
         bad.append(("ort-load", "ORT_DISABLE_ALL: " + str(e)[:300]))
         return bad
@@ -462,7 +474,8 @@ def judge_history(case, fresh_compare=True):
 
 def classify(bad):
     kinds = [k for k, _ in bad]
-    for k in ("full-checker", "strict-inference", "ort-load", "walker", "missing-function", "values", "values-vs-fresh"):
+    for k in ("checker-aborted", "runtime-aborted", "full-checker", "strict-inference", "ort-load", "walker",
+              "missing-function", "values", "values-vs-fresh"):
         if k in kinds:
             return "history:" + k
     return "history:invalid"
